@@ -74,6 +74,62 @@ def _mutations(db) -> Tuple[List[tuple], int]:
     return out, alias_sites
 
 
+def check_reencoding(db, chk, RULE):
+    tm = db.mod(TM)
+    # ---------------------------------------------------------------- R2 re-encoding composition
+    tm = db.mod(TM)
+    for q in ("Trace.parse_single_rank", "Trace.parse_multiple_ranks"):
+        f = tm.func(q)
+        where = tm.loc(f)
+        stores = [n for n in ast.walk(f) if isinstance(n, ast.Assign) and H.match("self.traces[rank][$c]", n.targets[0]) is not None]
+        ok = len(stores) == 1
+        det = [ast.unparse(s)[:160] for s in stores]
+        narrowing = [ast.unparse(c)[:100] for s in stores for c in ast.walk(s.value) if isinstance(c, ast.Call) and isinstance(c.func, ast.Attribute) and c.func.attr == "astype"]
+        gm_name = next((H.name_id(t) for t, v, s_ in H.assignments(f) if H.match("self.symbol_table.get_sym_id_map()", v) is not None), None)
+        lt_name = next((H.name_id(t) for t, v, s_ in H.assignments(f) if isinstance(v, ast.Call) and isinstance(v.func, ast.Attribute) and v.func.attr == "get_sym_table" and "local" in ast.unparse(v.func.value)), None)
+        if ok and gm_name and lt_name:
+            ok = any(H.match(f"self.traces[rank][$c] = self.traces[rank][$c].{meth}(lambda $i: {gm_name}[{lt_name}[$i]])", stores[0]) is not None for meth in ("apply", "map"))
+        else:
+            ok = False
+        if stores:
+            conds, jumps = [], []
+            cur = tm.parent.get(id(stores[0]))
+            loops_ = []
+            while cur is not None and cur is not f:
+                if isinstance(cur, (ast.If, ast.Try, ast.While)):
+                    # a guard that also encloses the parsing of that rank (nothing was loaded either) is not a skipped translation
+                    encloses_parse = any(isinstance(x, ast.Call) and (H.name_id(x.func) == "parse_trace_file" or (isinstance(x.func, ast.Attribute) and x.func.attr == "add_symbols")) for x in ast.walk(cur))
+                    if not encloses_parse:
+                        conds.append(ast.unparse(cur.test)[:80] if hasattr(cur, "test") else type(cur).__name__)
+                if isinstance(cur, ast.For):
+                    loops_.append(cur)
+                cur = tm.parent.get(id(cur))
+            for lp_ in loops_:
+                jumps += [type(x).__name__ for x in ast.walk(lp_) if isinstance(x, (ast.Continue, ast.Break)) and x.lineno < stores[0].lineno]
+            chk.ob(RULE, f"{q}: every rank's cat and name columns are re-encoded unconditionally (no guard, continue or break in front of the store)", not conds and not jumps, where,
+                   found={"conditions": conds, "jumps": jumps}, accepted="unconditional inside `for rank` / `for col`",
+                   why="skipping the translation when the tables merely have the same LENGTH leaves local ids that decode to other strings")
+        verdict = ok if ok or narrowing or not stores else None
+        chk.ob(RULE, f"{q}: new code of a cell = global_map[local_table[old code]] applied to the whole column, without a cast back to the old (narrow) dtype", verdict if not narrowing else False, where,
+               found=det + ([f"narrowing cast: {x}" for x in narrowing]), accepted="self.traces[rank][col] = self.traces[rank][col].apply(lambda idx: global_map[local_table[idx]])",
+               why="global ids can exceed the local column's small integer dtype: a cast back wraps silently and rows decode to other strings")
+        # local_table comes from the same rank's local table; global_map read after all add_symbols
+        lt = [(ast.unparse(v), s) for t, v, s in H.assignments(f) if H.name_id(t) == lt_name]
+        gm = [(ast.unparse(v), s) for t, v, s in H.assignments(f) if H.name_id(t) == gm_name]
+        adds = [c for c in ast.walk(f) if isinstance(c, ast.Call) and isinstance(c.func, ast.Attribute) and c.func.attr == "add_symbols"]
+        loc_single = next((H.name_id(t.elts[2]) for t, v, s_ in H.assignments(f) if isinstance(t, ast.Tuple) and len(t.elts) == 3 and isinstance(v, ast.Call) and H.name_id(v.func) == "parse_trace_file"), None)
+        loc_multi = next((ast.unparse(t.value) for t, v, s_ in H.assignments(f) if isinstance(t, ast.Subscript) and H.name_id(t.slice) == "rank" and "result" in ast.unparse(v) and "[2]" in ast.unparse(v)), "local_symbol_tables")
+        acc_lt = {f"{loc_multi}[rank].get_sym_table()"} | ({f"{loc_single}.get_sym_table()"} if loc_single else set())
+        ok_lt = len(lt) == 1 and lt[0][0] in acc_lt
+        ok_gm = len(gm) == 1 and gm[0][0] == "self.symbol_table.get_sym_id_map()" and adds and all(a.lineno < gm[0][1].lineno for a in adds)
+        chk.ob(RULE, f"{q}: the local table is the SAME rank's local table", ok_lt, where, found=[x[0] for x in lt], accepted="local_symbol_tables[rank].get_sym_table()")
+        chk.ob(RULE, f"{q}: the global map is read after every rank's symbols were added to the shared table", bool(ok_gm), where, found=[x[0] for x in gm] + [a.lineno for a in adds],
+               accepted="self.symbol_table.get_sym_id_map() after all add_symbols calls")
+        arg_ok = all(ast.unparse(a.args[0]) in acc_lt for a in adds)
+        chk.ob(RULE, f"{q}: the shared table is fed each rank's local symbols (in the rank's own id order)", arg_ok and bool(adds), where, found=[ast.unparse(a) for a in adds], accepted="self.symbol_table.add_symbols(<local table>.get_sym_table())")
+
+
+
 def run(db, chk) -> None:
     st = db.mod(ST)
     # ---------------------------------------------------------------- R1 who may write
@@ -113,59 +169,9 @@ def run(db, chk) -> None:
            found=[ast.unparse(s)[:90] for s in cr.body if "sym_index" in ast.unparse(s)], accepted="tst.sym_index.update({s: i for i, s in enumerate(tst.sym_table)})")
     chk.floor("C11.R1-append-only", 8)
 
-    # ---------------------------------------------------------------- R2 re-encoding composition
-    tm = db.mod(TM)
-    for q in ("Trace.parse_single_rank", "Trace.parse_multiple_ranks"):
-        f = tm.func(q)
-        where = tm.loc(f)
-        stores = [n for n in ast.walk(f) if isinstance(n, ast.Assign) and H.match("self.traces[rank][$c]", n.targets[0]) is not None]
-        ok = len(stores) == 1
-        det = [ast.unparse(s)[:160] for s in stores]
-        narrowing = [ast.unparse(c)[:100] for s in stores for c in ast.walk(s.value) if isinstance(c, ast.Call) and isinstance(c.func, ast.Attribute) and c.func.attr == "astype"]
-        gm_name = next((H.name_id(t) for t, v, s_ in H.assignments(f) if H.match("self.symbol_table.get_sym_id_map()", v) is not None), None)
-        lt_name = next((H.name_id(t) for t, v, s_ in H.assignments(f) if isinstance(v, ast.Call) and isinstance(v.func, ast.Attribute) and v.func.attr == "get_sym_table" and "local" in ast.unparse(v.func.value)), None)
-        if ok and gm_name and lt_name:
-            ok = any(H.match(f"self.traces[rank][$c] = self.traces[rank][$c].{meth}(lambda $i: {gm_name}[{lt_name}[$i]])", stores[0]) is not None for meth in ("apply", "map"))
-        else:
-            ok = False
-        if stores:
-            conds, jumps = [], []
-            cur = tm.parent.get(id(stores[0]))
-            loops_ = []
-            while cur is not None and cur is not f:
-                if isinstance(cur, (ast.If, ast.Try, ast.While)):
-                    # a guard that also encloses the parsing of that rank (nothing was loaded either) is not a skipped translation
-                    encloses_parse = any(isinstance(x, ast.Call) and (H.name_id(x.func) == "parse_trace_file" or (isinstance(x.func, ast.Attribute) and x.func.attr == "add_symbols")) for x in ast.walk(cur))
-                    if not encloses_parse:
-                        conds.append(ast.unparse(cur.test)[:80] if hasattr(cur, "test") else type(cur).__name__)
-                if isinstance(cur, ast.For):
-                    loops_.append(cur)
-                cur = tm.parent.get(id(cur))
-            for lp_ in loops_:
-                jumps += [type(x).__name__ for x in ast.walk(lp_) if isinstance(x, (ast.Continue, ast.Break)) and x.lineno < stores[0].lineno]
-            chk.ob("C11.R2-re-encoding", f"{q}: every rank's cat and name columns are re-encoded unconditionally (no guard, continue or break in front of the store)", not conds and not jumps, where,
-                   found={"conditions": conds, "jumps": jumps}, accepted="unconditional inside `for rank` / `for col`",
-                   why="skipping the translation when the tables merely have the same LENGTH leaves local ids that decode to other strings")
-        verdict = ok if ok or narrowing or not stores else None
-        chk.ob("C11.R2-re-encoding", f"{q}: new code of a cell = global_map[local_table[old code]] applied to the whole column, without a cast back to the old (narrow) dtype", verdict if not narrowing else False, where,
-               found=det + ([f"narrowing cast: {x}" for x in narrowing]), accepted="self.traces[rank][col] = self.traces[rank][col].apply(lambda idx: global_map[local_table[idx]])",
-               why="global ids can exceed the local column's small integer dtype: a cast back wraps silently and rows decode to other strings")
-        # local_table comes from the same rank's local table; global_map read after all add_symbols
-        lt = [(ast.unparse(v), s) for t, v, s in H.assignments(f) if H.name_id(t) == lt_name]
-        gm = [(ast.unparse(v), s) for t, v, s in H.assignments(f) if H.name_id(t) == gm_name]
-        adds = [c for c in ast.walk(f) if isinstance(c, ast.Call) and isinstance(c.func, ast.Attribute) and c.func.attr == "add_symbols"]
-        loc_single = next((H.name_id(t.elts[2]) for t, v, s_ in H.assignments(f) if isinstance(t, ast.Tuple) and len(t.elts) == 3 and isinstance(v, ast.Call) and H.name_id(v.func) == "parse_trace_file"), None)
-        loc_multi = next((ast.unparse(t.value) for t, v, s_ in H.assignments(f) if isinstance(t, ast.Subscript) and H.name_id(t.slice) == "rank" and "result" in ast.unparse(v) and "[2]" in ast.unparse(v)), "local_symbol_tables")
-        acc_lt = {f"{loc_multi}[rank].get_sym_table()"} | ({f"{loc_single}.get_sym_table()"} if loc_single else set())
-        ok_lt = len(lt) == 1 and lt[0][0] in acc_lt
-        ok_gm = len(gm) == 1 and gm[0][0] == "self.symbol_table.get_sym_id_map()" and adds and all(a.lineno < gm[0][1].lineno for a in adds)
-        chk.ob("C11.R2-re-encoding", f"{q}: the local table is the SAME rank's local table", ok_lt, where, found=[x[0] for x in lt], accepted="local_symbol_tables[rank].get_sym_table()")
-        chk.ob("C11.R2-re-encoding", f"{q}: the global map is read after every rank's symbols were added to the shared table", bool(ok_gm), where, found=[x[0] for x in gm] + [a.lineno for a in adds],
-               accepted="self.symbol_table.get_sym_id_map() after all add_symbols calls")
-        arg_ok = all(ast.unparse(a.args[0]) in acc_lt for a in adds)
-        chk.ob("C11.R2-re-encoding", f"{q}: the shared table is fed each rank's local symbols (in the rank's own id order)", arg_ok and bool(adds), where, found=[ast.unparse(a) for a in adds], accepted="self.symbol_table.add_symbols(<local table>.get_sym_table())")
+    check_reencoding(db, chk, "C11.R2-re-encoding")
     chk.floor("C11.R2-re-encoding", 8)
-
+    tm = db.mod(TM)
     # ---------------------------------------------------------------- R3 schedule independence
     f = tm.func("Trace.parse_multiple_ranks")
     where = tm.loc(f)
